@@ -679,11 +679,26 @@ class Skip(Exception):
     """a listed known finding was hit: the dependent assertions are skipped, the case goes on"""
 
 
+class RenderFailed(Exception):
+    """root.render raised inside urwid: there is no drawing to establish the fit precondition on"""
+
+    def __init__(self, violation):
+        super().__init__(str(violation))
+        self.violation = violation
+
+
 def _kinds_of(node, out):
     out.add(node["k"])
     for kid in node["kids"]:
         _kinds_of(kid, out)
     return out
+
+
+def _same(a, b):
+    return a.clause == b.clause and a.message == b.message
+
+
+MAX_AREA = 600
 
 
 class Harness:
@@ -699,6 +714,11 @@ class Harness:
         self.kinds = _kinds_of(self.root_node, set())
         cols = self.root_node["nc"] + _int(case.get("dc", 0), 0, 6)
         rows = self.root_node["nr"] + _int(case.get("dr", 0), 0, 4)
+        if cols * rows > MAX_AREA:
+            # bound of the campaign (every cell is visited, several times): larger drawings are not generated
+            if collect is None:
+                stat(f"discard:area>{MAX_AREA}")
+            raise Discard()
         self.size = (cols, rows) if self.mode == "B" else (cols,)
 
     # ---- reporting --------------------------------------------------------------------------
@@ -713,35 +733,44 @@ class Harness:
             self.reruns[key] = seen
         return self.reruns[key]
 
-    def attribute(self, v):
+    def attribute(self, v, recheck=None):
         """names of the proposed patches under which this very violation no longer occurs (the tree still
-        fitting): one patch if one suffices, else a minimal set (two listed defects can cooperate)"""
+        fitting): one patch if one suffices, else a minimal set (two listed defects can cooperate).
+        recheck(names) -> True if the failed assertion alone, repeated on a fresh tree carrying those
+        patches, no longer fails; tried first because it is cheap, the whole case is re-run otherwise."""
 
-        def gone(names):
+        def whole(names):
             seen = self._rerun(names)
-            return seen is not None and not any(x.clause == v.clause and x.message == v.message for x in seen)
+            return seen is not None and not any(_same(x, v) for x in seen)
+
+        def local(names):
+            try:
+                return bool(recheck(frozenset(names)))
+            except (Discard, RenderFailed):
+                return False
 
         names = [name for name, (kind, _cls) in FIXES.items() if kind in self.kinds]
-        for name in names:
-            if gone([name]):
-                return [name]
-        if len(names) > 1 and gone(names):
-            for name in list(names):
-                rest = [n for n in names if n != name]
-                if rest and gone(rest):
-                    names = rest
-            return names
+        for gone in ([local] if recheck is not None else []) + [whole]:
+            for name in names:
+                if gone([name]):
+                    return [name]
+            if len(names) > 1 and gone(names):
+                for name in list(names):
+                    rest = [n for n in names if n != name]
+                    if rest and gone(rest):
+                        names = rest
+                return names
         return None
 
-    def report(self, v):
+    def report(self, v, recheck=None):
         """raise v, unless it is an instance of a listed known finding: then remember it, skip what
         depends on the failed call and go on with the rest of the case"""
         if self.collect is not None:
             self.collect.append(v)
             raise Skip()
-        name = self.attribute(v)
-        if name is not None:
-            v2 = Violation(v.clause, f"{v.message} {fix_mark('+'.join(name))}")
+        names = self.attribute(v, recheck)
+        if names is not None:
+            v2 = Violation(v.clause, f"{v.message} {fix_mark('+'.join(names))}")
             v2.__traceback__ = v.__traceback__
             v = v2
         for pred in self.known.values():
@@ -754,50 +783,51 @@ class Harness:
                 raise Skip()
         raise v
 
-    def guard(self, root, fn, what, hold=False):
-        """run an urwid entry point; an exception from inside urwid becomes the runner's exception clause
-        (hold=True: it is returned as ("exc", violation) instead, to be reported once the fit is known)"""
+    @staticmethod
+    def raw(fn, what):
+        """run an urwid entry point; an exception from inside urwid is raised as the runner's exception clause"""
         try:
             return fn()
-        except (Violation, Discard, Skip):
+        except (Violation, Discard, Skip, RenderFailed):
             raise
         except Exception as e:  # noqa: BLE001
             if not innermost_is_urwid(e):
                 raise
             v = Violation(f"exception:{type(e).__name__}@{urwid_frame(e)}", f"{type(e).__name__}: {e} in {what}")
             v.__traceback__ = e.__traceback__
-            if hold:
-                return ("exc", v)
+            raise v from e
+
+    def guard(self, fn, what):
+        """raw() + report(): returns, raises an unlisted Violation, or raises Skip"""
+        try:
+            return self.raw(fn, what)
+        except Violation as v:
             self.report(v)
-            raise Skip() from e
+            raise Skip() from v
 
     # ---- drawing ----------------------------------------------------------------------------
-    def fresh(self, probes=True):
+    def fresh(self, probes=True, fixes=None):
         reg = Registry() if probes else None
-        return build(self.root_node, reg, fixes=self.fixes), reg
+        return build(self.root_node, reg, fixes=self.fixes if fixes is None else fixes), reg
 
-    def draw(self, root, reg):
-        """render focus=True with an empty cache; -> (canvas, grid, rects, sizes) after the fit check"""
+    def draw_raw(self, root, reg, count=True):
+        """render focus=True with an empty cache; -> (canvas, grid, rects, sizes) after the fit check.
+        Raises Discard if the tree does not fit, RenderFailed if render raises inside urwid."""
         urwid.CanvasCache.clear()
         del reg.log[:]
         try:
-            canv = root.render(self.size, True)
-        except Exception as e:  # noqa: BLE001
-            # no drawing, so the fit precondition cannot be established on this tree.  Rendering failures
-            # are C01's business; the exception is pursued here only if it is an instance of a listed
-            # cursor/geometry defect (it disappears, and the tree fits, under that defect's patch).
-            if not innermost_is_urwid(e):
-                raise
-            v = Violation(f"exception:{type(e).__name__}@{urwid_frame(e)}", f"{type(e).__name__}: {e} in render")
-            v.__traceback__ = e.__traceback__
-            if self.collect is not None or self.attribute(v) is None:
-                if self.collect is None:
-                    stat(f"discard:render-raises:{type(e).__name__}@{urwid_frame(e)}")
-                raise Discard() from e
-            self.report(v)
-        if canv.cols() != self.size[0] or (self.mode == "B" and canv.rows() != self.size[1]):
-            stat("discard:canvas-size")  # C01's business
+            canv = self.raw(lambda: root.render(self.size, True), "render")
+        except Violation as v:
+            raise RenderFailed(v) from v
+        count = count and self.collect is None
+
+        def unfit(label):
+            if count:
+                stat(label)
             raise Discard()
+
+        if canv.cols() != self.size[0] or (self.mode == "B" and canv.rows() != self.size[1]):
+            unfit("discard:canvas-size")  # C01's business
         grid = attr_grid(canv)
         rects = rectangles(grid)
         rendered = {}
@@ -810,52 +840,86 @@ class Harness:
                 continue
             got = rendered.get(pid)
             if not got:
-                stat("discard:unfit:not-rendered")
-                raise Discard()
+                unfit("discard:unfit:not-rendered")
             if len(got) != 1:
-                stat("discard:rendered-at-two-sizes")
-                raise Discard()
+                unfit("discard:rendered-at-two-sizes")
             size, ccols, crows = next(iter(got))
             rect = rects.get(pid)
             if rect is None or ccols < 1 or crows < 1:
-                stat("discard:unfit:hidden")
-                raise Discard()
+                unfit("discard:unfit:hidden")
             if rect[2] != ccols or rect[3] != crows or rect[4] != ccols * crows:
-                stat("discard:unfit:clipped")
-                raise Discard()
+                unfit("discard:unfit:clipped")
             sizes[pid] = size
         return canv, grid, rects, sizes
 
-    def cursor(self, root, what):
-        return self.guard(root, lambda: root.get_cursor_coords(self.size), f"get_cursor_coords ({what})")
+    def draw(self, root, reg):
+        try:
+            return self.draw_raw(root, reg)
+        except RenderFailed as rf:
+            # no drawing, so the fit precondition cannot be established on this tree.  Rendering failures
+            # are C01's business; the exception is pursued here only if it is an instance of a listed
+            # cursor/geometry defect (it disappears, and the tree fits, under that defect's patch).
+            v = rf.violation
+            if self.collect is not None or self.attribute(v) is None:
+                if self.collect is None:
+                    stat(f"discard:render-raises:{v.clause}")
+                raise Discard() from rf
+            self.report(v)
+            raise Skip() from rf
 
-    def check_cursor(self, root, canv, what, got=None):
-        """clause 1 on a tree whose focused rendering is `canv` (got: the answer obtained earlier)"""
-        if not hasattr(root, "get_cursor_coords"):
+    # ---- clause 1 ---------------------------------------------------------------------------
+    def initial(self, fixes):
+        """fresh tree: asked for its cursor, drawn (fit check), asked again.
+        -> (root, reg, canvas, rects, sizes, violations of clause 1)"""
+        root, reg = self.fresh(fixes=fixes)
+        has = hasattr(root, "get_cursor_coords")
+        before = None
+        if has:
+            try:
+                before = ("ok", self.raw(lambda: root.get_cursor_coords(self.size), "get_cursor_coords (never rendered tree)"))
+            except Violation as v:
+                before = ("exc", v)
+        canv, _grid, rects, sizes = self.draw_raw(root, reg, count=fixes == self.fixes)
+        out = []
+        if not has:
             # the root does not implement the cursor protocol (e.g. AttrMap over a SolidFill): outside the quantifier
-            stat("cursor:root-without-protocol")
+            return root, reg, canv, rects, sizes, out
+        if before[0] == "exc":
+            out.append(before[1])
+        elif before[1] != canv.cursor:
+            out.append(self.disagree("never rendered tree", before[1], canv))
+        try:
+            after = self.raw(lambda: root.get_cursor_coords(self.size), "get_cursor_coords (rendered tree)")
+            if after != canv.cursor:
+                out.append(self.disagree("rendered tree", after, canv))
+        except Violation as v:
+            out.append(v)
+        return root, reg, canv, rects, sizes, out
+
+    def disagree(self, what, got, canv):
+        return Violation(
+            "cursor-agree",
+            f"{what}: get_cursor_coords({self.size}) == {got!r}, render({self.size}, True).cursor == {canv.cursor!r}",
+        )
+
+    def check_cursor(self, root, canv, what):
+        """clause 1 on a tree whose focused rendering is `canv`"""
+        if not hasattr(root, "get_cursor_coords"):
             return
         try:
-            if got is None:
-                got = ("ok", self.cursor(root, what))
-            if got[1] != canv.cursor:
-                self.report(
-                    Violation(
-                        "cursor-agree",
-                        f"{what}: get_cursor_coords({self.size}) == {got[1]!r}, render({self.size}, True).cursor == "
-                        f"{canv.cursor!r}",
-                    )
-                )
+            got = self.guard(lambda: root.get_cursor_coords(self.size), f"get_cursor_coords ({what})")
+            if got != canv.cursor:
+                self.report(self.disagree(what, got, canv))
         except Skip:
             return
-        stat("cursor:agree:" + ("none" if got[1] is None else "coords"))
+        stat("cursor:agree:" + ("none" if got is None else "coords"))
 
     # ---- clause 2 ---------------------------------------------------------------------------
     def send(self, root, reg, grid, rects, event, button, c, r):
         pid = pid_at(grid, c, r)
         del reg.log[:]
         try:
-            self.guard(root, lambda: root.mouse_event(self.size, event, button, c, r, True), f"mouse_event at ({c},{r})")
+            self.guard(lambda: root.mouse_event(self.size, event, button, c, r, True), f"mouse_event at ({c},{r})")
             if pid is None or reg.probes[pid]["bg"]:
                 stat("mouse:cell-outside-probes")
                 return
@@ -894,8 +958,9 @@ class Harness:
             return
 
     # ---- clause 3 ---------------------------------------------------------------------------
-    def move(self, c, r, pid, probe, rect, psize):
-        root, _reg = self.fresh(probes=False)
+    def move_violation(self, fixes, c, r, pid, probe, rect, psize):
+        """one move_cursor_to_coords on a fresh tree -> (Violation | None, label for the statistics)"""
+        root, _reg = self.fresh(probes=False, fixes=fixes)
         left, top = rect[0], rect[1]
         kind = probe["node"]["k"]
         twin = make_leaf(probe["node"]["leaf"], probe=False)
@@ -905,33 +970,43 @@ class Harness:
             exp = True  # a selectable widget without the method accepts every cell (all containers read it so)
         what = f"move_cursor_to_coords({self.size}, {c}, {r})"
         try:
-            got = self.guard(root, lambda: root.move_cursor_to_coords(self.size, c, r), what)
+            got = self.raw(lambda: root.move_cursor_to_coords(self.size, c, r), what)
             if bool(got) != exp:
-                self.report(
-                    Violation(
-                        "move-accept",
-                        f"{what} returned {got!r}; the cell is ({c - left},{r - top}) of probe {pid} ({kind}, drawn from "
-                        f"({left},{top}) at size {psize}) whose twin {'accepts' if exp else 'rejects'} it",
-                    )
-                )
-            stat("move:accepted" if exp else "move:rejected")
+                return Violation(
+                    "move-accept",
+                    f"{what} returned {got!r}; the cell is ({c - left},{r - top}) of probe {pid} ({kind}, drawn from "
+                    f"({left},{top}) at size {psize}) whose twin {'accepts' if exp else 'rejects'} it",
+                ), None
             if not exp:
-                return
+                return None, "move:rejected"
             tcur = twin.get_cursor_coords(psize) if hasattr(twin, "get_cursor_coords") else None
             if tcur is None:
-                stat("move:twin-has-no-cursor")
-                return
+                return None, "move:accepted:twin-has-no-cursor"
             want = (left + tcur[0], top + tcur[1])
-            cur = self.cursor(root, f"after {what}")
+            cur = self.raw(lambda: root.get_cursor_coords(self.size), f"get_cursor_coords (after {what})")
             if cur != want:
                 clause = "move-cursor-row" if (cur is None or cur[1] != want[1]) else "move-cursor-col"
-                self.report(
-                    Violation(
-                        clause,
-                        f"after {what} == True the root reports cursor {cur!r}; probe {pid} ({kind}, drawn from "
-                        f"({left},{top}) at size {psize}) asked for ({c - left},{r - top}) puts it at {tcur!r}, i.e. {want!r}",
-                    )
-                )
+                return Violation(
+                    clause,
+                    f"after {what} == True the root reports cursor {cur!r}; probe {pid} ({kind}, drawn from "
+                    f"({left},{top}) at size {psize}) asked for ({c - left},{r - top}) puts it at {tcur!r}, i.e. {want!r}",
+                ), None
+        except Violation as v:
+            return v, None
+        return None, "move:accepted"
+
+    def move(self, *args):
+        v, label = self.move_violation(self.fixes, *args)
+        if v is None:
+            stat(label)
+            return
+
+        def recheck(names):
+            v2, _label = self.move_violation(self.fixes | names, *args)
+            return v2 is None or not _same(v2, v)
+
+        try:
+            self.report(v, recheck)
         except Skip:
             return
 
@@ -952,24 +1027,33 @@ class Harness:
             raise self.deferred[0]
 
     def _run(self):
-        count = self.collect is None
-        # clause 1, "without rendering": a fresh tree is asked first, then drawn
-        root, reg = self.fresh()
-        before = None
-        if hasattr(root, "get_cursor_coords"):
-            what = "get_cursor_coords (never rendered tree)"
-            before = self.guard(root, lambda: ("ok", root.get_cursor_coords(self.size)), what, hold=True)
-        canv0, _grid0, rects0, sizes0 = self.draw(root, reg)  # Discard unless the tree fits: nothing is reported before
-        if count:
+        # clause 1: a fresh tree is asked "without rendering", then drawn.  Nothing is reported before the fit
+        # precondition holds on the drawing (initial() raises Discard otherwise).
+        try:
+            root, reg, canv0, rects0, sizes0, found = self.initial(self.fixes)
+        except RenderFailed as rf:
+            v = rf.violation
+            if self.collect is not None or self.attribute(v) is None:
+                if self.collect is None:
+                    stat(f"discard:render-raises:{v.clause}")
+                raise Discard() from rf
+            self.report(v)
+            raise Skip() from rf
+        if self.collect is None:
             stat("fit")
-        if before is not None and before[0] == "exc":
+        if not hasattr(root, "get_cursor_coords"):
+            stat("cursor:root-without-protocol")
+        for v in found:
+
+            def recheck(names, v=v):
+                return not any(_same(x, v) for x in self.initial(self.fixes | names)[5])
+
             try:
-                self.report(before[1])
+                self.report(v, recheck)
             except Skip:
                 pass
-        elif before is not None:
-            self.check_cursor(root, canv0, "never rendered tree", before)
-        self.check_cursor(root, canv0, "rendered tree")
+        if not found and hasattr(root, "get_cursor_coords"):
+            stat("cursor:agree:" + ("none" if canv0.cursor is None else "coords"), 2)
         ncols, nrows = canv0.cols(), canv0.rows()
 
         # clause 3: a fresh tree per cell (rectangles of the first drawing = the initial state)
@@ -1146,7 +1230,7 @@ def box_node(depth):
         st.fixed_dictionaries({"top": bx, "h": st.one_of(_g, _rel), **over_common}),
     )
     lb = st.fixed_dictionaries({"k": st.just("lb"), "c": _kids(st.fixed_dictionaries({"n": fl}), 4), "f": _focus})
-    return st.one_of(_fill, pile, cols, frame, filler, filler, pad, over, over, lb, _line(bx), _attr(bx))
+    return st.one_of(_fill, pile, pile, cols, cols, frame, filler, filler, pad, over, lb, _line(bx), _attr(bx))
 
 
 def case_strategy(depth):
@@ -1222,7 +1306,7 @@ def classify(case):
 
 def shard(ctx):
     depth = ctx.scale(3, 4)
-    ctx.given("tree", case_strategy(depth), ctx.scale(300, 6000), nontrivial=nontrivial, classify=classify)
+    ctx.given("tree", case_strategy(depth), ctx.scale(300, 4000), nontrivial=nontrivial, classify=classify)
     for label, n in sorted(STATS.items()):
         ctx.count("run:" + label, n)
 
